@@ -193,7 +193,7 @@ Lemma step_colon p : parse_step PColon p =
   let nt1 := p_nt p1 in
   match t_typ nt1 with
   | tokNewline => (pnext p1, Some PColon)
-  | tokComment => (pnext (p_set_meta p1 (read_metadata (p_meta p1) (t_val nt1))), Some PColon)
+  | tokComment => (pnext (p_label_comment p1 (t_val nt1)), Some PColon)
   | _ =>
     if tok_is_op nt1 then (p1, Some (if tok_is_pseudo nt1 then PPseudoOp else POp))
     else match t_typ nt1 with
